@@ -586,16 +586,22 @@ def rule_filterimpl(ctx):
         if passthrough:
             yield ob("C03.FILTERIMPL", f, "util.filter_kwargs:passthrough", under_has_kwargs, "all keywords are passed through only when the callee has **kwargs", node=c.node)
         else:
-            # filtered dict: built by stores filtered[kwarg] = value in a loop over kwargs.items() under `kwarg in <argnames>`
-            stores = [m for m in s.by_kind("mutate") if m.how == "setitem" and m.root is not None]
-            need(stores, "C03.FILTERIMPL", "filtered dict construction not recognised")
-            for m in stores:
-                key, val = m.key, m.val
-                loops = symeval.pc_loops(m.pc)
-                conds = symeval.pc_conds(m.pc)
+            entries = []  # (key term, value term, [condition terms], n_loops, node)
+            if kwt.op == "comp" and kwt.a[0] == "dict":
+                # {k: v for k, v in kwargs.items() if ...}
+                elt = kwt.a[1]
+                if elt.op == "tuple" and len(elt.a) == 2:
+                    entries.append((elt.a[0], elt.a[1], list(kwt.a[3]), len(kwt.a[2]), c.node))
+            else:
+                # filtered = {}; for k, v in kwargs.items(): if k in names: filtered[k] = v
+                for m in s.by_kind("mutate"):
+                    if m.how == "setitem" and m.root is not None:
+                        entries.append((m.key, m.val, [c2 for c2, p in symeval.pc_conds(m.pc) if p and call_name(c2) != "util.has_kwargs"] + [tm.unop("not", c2) for c2, p in symeval.pc_conds(m.pc) if not p and call_name(c2) != "util.has_kwargs"], len(symeval.pc_loops(m.pc)), m.node))
+            need(entries, "C03.FILTERIMPL", "filtered keyword dict construction not recognised")
+            for key, val, conds, nloops, node in entries:
                 # key/value are the two components of one item of kwargs.items()
                 from_items = key.op == "sub" and val.op == "sub" and key.a[0] is val.a[0] and tm.is_const(key.a[1], 0) and tm.is_const(val.a[1], 1) and f.kwarg in tm.params_of(key)
-                member = [c2 for c2, p in conds if p and c2.op == "cmp" and c2.a[0] == "in" and c2.a[1] is key]
+                member = [c2 for c2 in conds if c2.op == "cmp" and c2.a[0] == "in" and c2.a[1] is key]
                 good_names = False
                 for c2 in member:
                     names = c2.a[2]
@@ -605,8 +611,11 @@ def rule_filterimpl(ctx):
                         if lo.op == "const" and lo.a[0] is None and st.op == "const" and st.a[0] is None and hi.op == "attr" and hi.a[1] == "co_argcount" and hi.a[0] is names.a[0].a[0]:
                             code = hi.a[0]
                             good_names = code.op == "attr" and code.a[1] == "__code__" and code.a[0] is fn_t
-                extra_conds = [c2 for c2, p in conds if not (c2 in member) and not (call_name(c2) == "util.has_kwargs")]
-                yield ob("C03.FILTERIMPL", f, "util.filter_kwargs:filter", from_items and good_names and not extra_conds and len(loops) == 1, "a keyword is kept iff its name is in co_varnames[:co_argcount] of the callee, with its own value", node=m.node)
+                extra_conds = [c2 for c2 in conds if c2 not in member]
+                what = "a keyword is kept iff its name is in co_varnames[:co_argcount] of the callee, with its own value"
+                if extra_conds:
+                    what += "; found the extra filter condition %s" % "; ".join(tm.show(x, 3) for x in extra_conds)
+                yield ob("C03.FILTERIMPL", f, "util.filter_kwargs:filter", from_items and good_names and not extra_conds and nloops == 1, what, node=node)
 
 
 # ---------------------------------------------------------------- ROLEARGS
